@@ -6,7 +6,7 @@ command -v java >/dev/null
 test -f /opt/veriftools/tla/tla2tools.jar
 mkdir -p .work evidence
 /venv/bin/python -m compileall -q harness tools
-for m in TraceJudge; do
+for m in TraceJudge Deltas Unitary Wick MC_Rspt MC_Isr History; do
   (cd spec && java -cp /opt/veriftools/tla/tla2tools.jar:/opt/veriftools/tla/CommunityModules-deps.jar tla2sany.SANY $m.tla >/dev/null)
 done
 PYTHONPATH=/repo /venv/bin/python -c "import adcgen, sympy; print('adcgen', adcgen.__version__, 'sympy', sympy.__version__)"
